@@ -53,6 +53,8 @@ Definition run_op (k : kb) (w : pworld) (op : sx) : pworld * sx :=
   | L [A 11; i; wl] =>  (* add_knowledge(i, world=wl) on a formula of the model: its bounds AND its stored data become the world *)
       let s' := upd s (dnat i) (dbnd wl) in
       (PW s' (upd (pw_leaves w) (dnat i) (dbnd wl)) (pw_query w) (roots ++ [dnat i]), L [estate n s'])
+  | L [A 16] =>  (* read-only calls: Model.print(), state(), is_contradiction(), get_data() of every object: nothing changes *)
+      (w, L [estate n s])
   | L [A 13; r] =>  (* a later add_knowledge(r) call: r joins the registered roots; no bounds change *)
       (PW s (pw_leaves w) (pw_query w) (roots ++ [dnat r]), L [estate n s])
   | L [A 9] =>  (* has_contradiction over all registered objects (= reachable from the roots) *)
